@@ -250,3 +250,28 @@ Theorem C03_pb_trace_exec_adjoint (R : comRingType) n (x : seq R) (ybar : R) : s
 Proof. exact: pb_trace_adjoint. Qed.
 Print Assumptions C03_tri_mask_self_adjoint.
 Print Assumptions C03_pb_trace_exec_adjoint.
+
+(* ---- view-like operations (GatherRules.v): basic indexing with any index expression, transposition by any axis permutation and reshape are
+   gathers along index lists that Array.v computes and C13 proves in range and duplicate free; scattering the output adjoint back along the
+   same list is the adjoint, and for a duplicate-free list it is the plain write xbar[sl] = ybar of UTPM.pb_getitem *)
+From AlgoV Require Import ArraySpec2 GatherRules.
+Theorem C03_pb_getitem_adjoint (R : comRingType) (ix : seq ixitem) (s : shape) g (x ybar : seq R) : getitem_gather ix s = Some g ->
+  size x = nelem s -> size ybar = nelem g.1 ->
+  dotp (gatherV g.2 x) ybar = dotp x (scatter_add g.2 ybar (nelem s)).
+Proof. exact: pb_getitem_adjoint. Qed.
+Theorem C03_pb_transpose_gather_adjoint (R : comRingType) (perm : seq nat) (s : shape) (x ybar : seq R) : perm_eq perm (iota 0 (size s)) ->
+  size x = nelem s -> size ybar = nelem s ->
+  let g := transpose_gather perm s in
+  dotp (gatherV g.2 x) ybar = dotp x (scatter_add g.2 ybar (nelem s)).
+Proof. exact: pb_transpose_gather_adjoint. Qed.
+Theorem C03_pb_reshape_adjoint (R : comRingType) (ns s : shape) g (x ybar : seq R) : reshape_gather ns s = Some g ->
+  size x = nelem s -> size ybar = nelem s ->
+  dotp (gatherV g.2 x) ybar = dotp x (scatter_add g.2 ybar (nelem s)).
+Proof. exact: pb_reshape_adjoint. Qed.
+Theorem C03_scatter_add_uniq (V : zmodType) (idx : seq nat) (vals : seq V) n k : uniq idx -> size vals = size idx -> (k < size idx)%N ->
+  nth 0 (scatter_add idx vals n) (nth 0%N idx k) = nth 0 vals k.
+Proof. exact: scatter_add_uniq. Qed.
+Print Assumptions C03_pb_getitem_adjoint.
+Print Assumptions C03_pb_transpose_gather_adjoint.
+Print Assumptions C03_pb_reshape_adjoint.
+Print Assumptions C03_scatter_add_uniq.
